@@ -13,7 +13,8 @@ from .vclock import tst_of
 
 
 def gn_addr(mid: bytes, st: int = 5, m: int = 0) -> GNAddress:
-    return GNAddress(m=M(m), st=ST(st), mid=MID(bytes(mid)))
+    # code 15 is taken by name: a tree that numbers the road side unit differently then shows on the wire, not as a harness error
+    return GNAddress(m=M(m), st=ST.ROAD_SIDE_UNIT if st == 15 else ST(st), mid=MID(bytes(mid)))
 
 
 def addr_dict(a: GNAddress) -> dict:
